@@ -6,7 +6,8 @@
 (* An abstract PROGRAM is a record  [classes |-> <<class, ...>>]  over     *)
 (*   param  [n, t, d]        name, t \in {"int","str","none"} (annotation), *)
 (*                           d \in {"req","dflt"} (required / has default)  *)
-(*   fwd    [k, b, hard, q, qop, chain]   what the body does with **kwargs  *)
+(*   fwd    [k, b, hard, pos, q, qop, qpos, av, chain]                      *)
+(*                                     what the body does with **kwargs     *)
 (*            k     "ignore"  kwargs is not forwarded                       *)
 (*                  "super0"  super().__init__(hard..., **kwargs)           *)
 (*                  "superB"  super(B, self).__init__(hard..., **kwargs),   *)
@@ -15,10 +16,24 @@
 (*                  "meth"    self.m(hard..., **kwargs)                     *)
 (*                  "new"     B(hard..., **kwargs): a new instance of the   *)
 (*                            (earlier) class b, also from a helper function*)
+(*                  "attr"    self._kw = kwargs, unpacked later in a member *)
+(*                            of the class: helper(hard..., **self._kw);    *)
+(*                            av = "meth" a method | "prop" a property |    *)
+(*                            "upd" self._kw = dict(); self._kw.update(     *)
+(*                            **kwargs) | "dict" self._kw = dict(**kwargs)  *)
 (*                  "next"    (functions of a chain) the next function      *)
 (*            hard  names given as hard-coded keyword arguments at the call *)
-(*            q     names taken BEFORE the call with kwargs.pop(n, dflt)    *)
-(*                  (qop = "pop") or kwargs.get(n, dflt) (qop = "get")      *)
+(*            pos   number of hard-coded POSITIONAL arguments at the call   *)
+(*            q     names taken with kwargs.pop(n, dflt) (qop = "pop") or   *)
+(*                  kwargs.get(n, dflt) (qop = "get") before **kwargs is    *)
+(*                  unpacked; qpos says where the expression is written:    *)
+(*                  "stmt"  own statements before the call                  *)
+(*                  "arg"   nested as the positional argument of the call:  *)
+(*                          target(kwargs.pop(n, d), **kwargs)   (pos = 1)  *)
+(*                  "kw"    nested as the value of the first hard-coded     *)
+(*                          keyword: target(h=kwargs.pop(n, d), **kwargs)   *)
+(*                  "alias" q = <<n1, n2>>, nested in the other's default:  *)
+(*                          kwargs.get(n1, kwargs.get(n2, d))               *)
 (*            chain a chain of helper functions (sigs), chain[j] calls      *)
 (*                  chain[j+1] when its own fwd.k = "next"                  *)
 (*   sig    [has, ps, kw, fw]   a def: has = it exists, ps = named params,  *)
@@ -51,7 +66,7 @@ ReqOf(ps)   == {ps[i].n : i \in {j \in DOMAIN ps : ps[j].d = "req"}}
 PosIn(s, x) == LET S == {i \in DOMAIN s : s[i] = x} IN IF S = {} THEN 0 ELSE MinOf(S)
 Str(n)      == ToString(n)
 
-NoFwd  == [k |-> "ignore", b |-> 0, hard |-> << >>, q |-> << >>, qop |-> "pop", chain |-> << >>]
+NoFwd  == [k |-> "ignore", b |-> 0, hard |-> << >>, pos |-> 0, q |-> << >>, qop |-> "pop", qpos |-> "stmt", av |-> "-", chain |-> << >>]
 NoSig  == [has |-> FALSE, ps |-> << >>, kw |-> FALSE, fw |-> NoFwd]
 
 (***************************************************************************)
@@ -82,7 +97,8 @@ DefIn(P, order, from, what) ==
 
 (***************************************************************************)
 (* Ref layer 2: Python's call semantics.  A call passes a SET K of keyword *)
-(* names (values do not influence acceptance).  The outcome is             *)
+(* names (values do not influence acceptance) and np hard-coded positional *)
+(* arguments.  The outcome is                                               *)
 (*   [ok |-> FALSE]  some call on the way raises TypeError (unexpected     *)
 (*                   keyword, missing required argument, multiple values   *)
 (*                   for a keyword) or AttributeError (no method m), or    *)
@@ -104,47 +120,54 @@ QLab == [x \in 0..MaxIdx |-> [j \in 1..4 |-> "Q" \o Str(x) \o "." \o Str(j)]]
 
 \* a binding is the DECLARATION that received the keyword: [o, n, t, d]
 Decl(o, p)    == [o |-> o, n |-> p.n, t |-> p.t, d |-> p.d]
-PopDecl(o, n) == [o |-> o, n |-> n, t |-> "none", d |-> "dflt"]       \* kwargs.pop("n", dflt): no annotation, a default
+\* kwargs.pop("n", dflt): no annotation, a default; "expr" when the default is not a literal (the other pop/get of an alias)
+PopDflt(fw, n)   == IF fw.qpos = "alias" /\ Len(fw.q) > 0 /\ n = fw.q[1] THEN "expr" ELSE "dflt"
+PopDecl(o, fw, n) == [o |-> o, n |-> n, t |-> "none", d |-> PopDflt(fw, n)]
 Named(sig, o, K) == {Decl(o, sig.ps[i]) : i \in {j \in DOMAIN sig.ps : sig.ps[j].n \in K}}
-Pops(o, S)       == {PopDecl(o, n) : n \in S}
+Pops(o, fw, S)   == {PopDecl(o, fw, n) : n \in S}
 
-\* binding keyword arguments to a def (CPython: unexpected keyword / missing required argument)
-Arrive(sig, K) == LET own == NamesOf(sig.ps) IN
-  [ok |-> (K \subseteq own \/ sig.kw) /\ ReqOf(sig.ps) \subseteq K, rest |-> K \ own]
+\* binding np positional and the keyword arguments K to a def (CPython: too many positional arguments / multiple values
+\* for an argument given by position and by keyword / unexpected keyword / missing required argument)
+Arrive(sig, K, np) ==
+  LET own  == NamesOf(sig.ps)
+      byps == {sig.ps[i].n : i \in 1..(IF np <= Len(sig.ps) THEN np ELSE 0)}
+  IN [ok |-> np <= Len(sig.ps) /\ byps \cap K = {} /\ (K \subseteq own \/ sig.kw) /\ ReqOf(sig.ps) \subseteq (K \cup byps), rest |-> K \ own]
 
 \* f(h=..., **kwargs): a keyword both hard-coded and present in kwargs is "multiple values for keyword argument";
 \* what the callee binds for the hard-coded names was not passed by our caller
 Back(r, mine, hard) == IF r.ok THEN Ok(mine \cup {b \in r.bind : b.n \notin hard}) ELSE Fail
 
-RECURSIVE RefFn(_, _, _, _, _)
-RECURSIVE RefInit(_, _, _, _)
-RefFn(P, chain, j, cid, K) ==
+RECURSIVE RefFn(_, _, _, _, _, _)
+RECURSIVE RefInit(_, _, _, _, _)
+RefFn(P, chain, j, cid, K, np) ==
   LET s      == chain[j]
-      a      == Arrive(s, K)
+      a      == Arrive(s, K, np)
       popped == a.rest \cap SetOf(s.fw.q)
-      mine   == Named(s, FLab[cid][j], K) \cup Pops(QLab[cid][j], popped)
+      mine   == Named(s, FLab[cid][j], K) \cup Pops(QLab[cid][j], s.fw, popped)
       rest   == IF s.fw.qop = "pop" THEN a.rest \ popped ELSE a.rest
       hard   == SetOf(s.fw.hard)
   IN IF ~a.ok THEN Fail
      ELSE IF ~s.kw THEN Ok(Named(s, FLab[cid][j], K))
      ELSE IF s.fw.k = "ignore" THEN Ok(mine)
      ELSE IF hard \cap rest # {} THEN Fail
-     ELSE IF s.fw.k = "new" THEN Back(RefInit(P, Mro(P, s.fw.b), 1, rest \cup hard), mine, hard)
+     ELSE IF s.fw.k = "new" THEN Back(RefInit(P, Mro(P, s.fw.b), 1, rest \cup hard, s.fw.pos), mine, hard)
      ELSE IF j >= Len(chain) THEN Fail
-     ELSE Back(RefFn(P, chain, j + 1, cid, rest \cup hard), mine, hard)
+     ELSE Back(RefFn(P, chain, j + 1, cid, rest \cup hard, s.fw.pos), mine, hard)
 
-RefMeth(P, Y, K) == LET a == Arrive(P.classes[Y].m, K) IN IF a.ok THEN Ok(Named(P.classes[Y].m, MLab[Y], K)) ELSE Fail
+RefMeth(P, Y, K, np) == LET a == Arrive(P.classes[Y].m, K, np) IN IF a.ok THEN Ok(Named(P.classes[Y].m, MLab[Y], K)) ELSE Fail
 
-\* the __init__ that runs when the search starts at position pos of the runtime MRO `mro` of the instantiated class
-RefInit(P, mro, pos, K) ==
+\* the __init__ that runs when the search starts at position pos of the runtime MRO `mro` of the instantiated class.
+\* "attr": the stored dict is unpacked when the member is used; a call of the component is the construction followed by
+\* the use of every such member (the harness does exactly that), so the use is part of the call.
+RefInit(P, mro, pos, K, np) ==
   LET k == DefIn(P, mro, pos, "init") IN
-  IF k = 0 THEN (IF K = {} THEN Ok({}) ELSE Fail)              \* object.__init__() takes no keyword
+  IF k = 0 THEN (IF K = {} /\ np = 0 THEN Ok({}) ELSE Fail)    \* object.__init__() takes no argument
   ELSE LET X  == mro[k]
            I  == P.classes[X].init
-           a  == Arrive(I, K)
+           a  == Arrive(I, K, np)
            fw == I.fw
            popped == a.rest \cap SetOf(fw.q)
-           mine   == Named(I, CLab[X], K) \cup Pops(PLab[X], popped)
+           mine   == Named(I, CLab[X], K) \cup Pops(PLab[X], fw, popped)
            rest   == IF fw.qop = "pop" THEN a.rest \ popped ELSE a.rest
            hard   == SetOf(fw.hard)
            send   == rest \cup hard
@@ -152,13 +175,14 @@ RefInit(P, mro, pos, K) ==
           ELSE IF ~I.kw THEN Ok(Named(I, CLab[X], K))
           ELSE IF fw.k = "ignore" THEN Ok(mine)
           ELSE IF hard \cap rest # {} THEN Fail
-          ELSE CASE fw.k = "super0" -> Back(RefInit(P, mro, k + 1, send), mine, hard)
+          ELSE CASE fw.k = "super0" -> Back(RefInit(P, mro, k + 1, send, fw.pos), mine, hard)
                  [] fw.k = "superB" -> LET kb == PosIn(mro, fw.b) IN
-                                       IF kb = 0 THEN Fail ELSE Back(RefInit(P, mro, kb + 1, send), mine, hard)
-                 [] fw.k = "func"   -> IF Len(fw.chain) = 0 THEN Fail ELSE Back(RefFn(P, fw.chain, 1, X, send), mine, hard)
+                                       IF kb = 0 THEN Fail ELSE Back(RefInit(P, mro, kb + 1, send, fw.pos), mine, hard)
+                 [] fw.k \in {"func", "attr"} ->
+                                       IF Len(fw.chain) = 0 THEN Fail ELSE Back(RefFn(P, fw.chain, 1, X, send, fw.pos), mine, hard)
                  [] fw.k = "meth"   -> LET y == DefIn(P, mro, 1, "m") IN       \* self.m: looked up on type(self)
-                                       IF y = 0 THEN Fail ELSE Back(RefMeth(P, mro[y], send), mine, hard)
-                 [] fw.k = "new"    -> Back(RefInit(P, Mro(P, fw.b), 1, send), mine, hard)   \* a fresh object of class b
+                                       IF y = 0 THEN Fail ELSE Back(RefMeth(P, mro[y], send, fw.pos), mine, hard)
+                 [] fw.k = "new"    -> Back(RefInit(P, Mro(P, fw.b), 1, send, fw.pos), mine, hard)   \* a fresh object of class b
                  [] OTHER           -> Fail
 
 \* the classes whose __init__ a resolver could be tempted to look at when the search starts at position pos of mro
@@ -175,11 +199,11 @@ Entered(P, mro, pos, fuel) ==
                     ELSE Entered(P, mro, k + 1, fuel - 1) \cup
                          CASE fw.k = "superB" -> LET kb == PosIn(mro, fw.b) IN IF kb = 0 THEN {} ELSE Entered(P, mro, kb + 1, fuel - 1)
                            [] fw.k = "new"    -> Entered(P, Mro(P, fw.b), 1, fuel - 1)
-                           [] fw.k = "func"   -> ViaChain(fw.chain)
+                           [] fw.k \in {"func", "attr"} -> ViaChain(fw.chain)
                            [] OTHER           -> {})
 AllMatter(P, c) == {x \in DOMAIN P.classes : P.classes[x].init.has} \subseteq Entered(P, Mro(P, c), 1, 2 * Len(P.classes) + 2)
 
-Run(P, comp, K) == IF comp.k = "cls" THEN RefInit(P, Mro(P, comp.c), 1, K) ELSE RefFn(P, comp.chain, 1, 0, K)
+Run(P, comp, K) == IF comp.k = "cls" THEN RefInit(P, Mro(P, comp.c), 1, K, 0) ELSE RefFn(P, comp.chain, 1, 0, K, 0)
 
 (***************************************************************************)
 (* Ref layer 3: the property's vocabulary, derived from the call semantics *)
@@ -188,8 +212,8 @@ Run(P, comp, K) == IF comp.k = "cls" THEN RefInit(P, Mro(P, comp.c), 1, K) ELSE 
 (* notions take the table T.                                               *)
 (***************************************************************************)
 RunTable(P, comp, U) ==
-  IF comp.k = "cls" THEN LET mro == Mro(P, comp.c) IN {[K |-> K, r |-> RefInit(P, mro, 1, K)] : K \in SUBSET U}
-  ELSE {[K |-> K, r |-> RefFn(P, comp.chain, 1, 0, K)] : K \in SUBSET U}
+  IF comp.k = "cls" THEN LET mro == Mro(P, comp.c) IN {[K |-> K, r |-> RefInit(P, mro, 1, K, 0)] : K \in SUBSET U}
+  ELSE {[K |-> K, r |-> RefFn(P, comp.chain, 1, 0, K, 0)] : K \in SUBSET U}
 Succ(T)      == {x \in T : x.r.ok}                                    \* the calls that succeed
 OKSets(T)    == {e.K : e \in Succ(T)}
 Callable(T)  == Succ(T) # {}                                          \* some call succeeds (a set test: safe inside actions)
@@ -256,9 +280,11 @@ Crashed(ms, ev) == [ps |-> << >>, ms |-> ms, ev |-> ev \cup {"cond-regroup"}, cr
 \* get_signature_parameters_and_indexes:281-301   inspect.signature without self and without **kwargs
 OwnParams(sig, o) == [i \in DOMAIN sig.ps |-> PD(sig.ps[i], o)]
 
-\* remove_given_parameters:266-274  (keyword names only: the grammar has no hard-coded positionals)
-RemoveGiven(hard, ps) == SelectSeq(ps, LAMBDA p : p.n \notin hard)
-RemovedBy(hard, ps)   == IF Len(RemoveGiven(hard, ps)) < Len(ps) THEN {p.n : p \in {x \in SetOf(ps) : x.n \in hard}} ELSE {}
+\* remove_given_parameters:266-274   first the parameters at the positions of the positional arguments of the call, then
+\* those named by its keywords; with a removed_params set (only get_parameters_args_and_kwargs passes one) the keyword
+\* names that were found are recorded in it
+RemoveGiven(hard, npos, ps) == SelectSeq(SubSeq(ps, (IF npos <= Len(ps) THEN npos ELSE Len(ps)) + 1, Len(ps)), LAMBDA p : p.n \notin hard)
+RemovedBy(hard, npos, ps)   == IF Len(RemoveGiven(hard, npos, ps)) < Len(ps) THEN {p.n : p \in {x \in SetOf(ps) : x.n \in hard}} ELSE {}
 
 \* add_node_origins:839-845
 AddNodeOrigins(ps) == [i \in DOMAIN ps |-> IF ps[i].org = "-" THEN [ps[i] EXCEPT !.org = "node"] ELSE ps[i]]
@@ -321,8 +347,9 @@ RECURSIVE AstKwargs(_, _, _, _, _, _)
 \* plab = owner label of its pop/get parameters, ctx = the helper chain the def belongs to / calls
 AstKwargs(PT, parent, fw, ms, plab, ctx) ==
   LET hard    == SetOf(fw.hard)
-      \* 781-786 + get_kwargs_pop_or_get_parameter:741-761   one single-parameter list per pop/get call, in source order
-      poplists == [i \in DOMAIN fw.q |-> << [n |-> fw.q[i], t |-> "none", d |-> "dflt", o |-> plab, kind |-> "ko", org |-> "pg"] >>]
+      \* 781-786 + get_kwargs_pop_or_get_parameter:741-761   one single-parameter list per pop/get call; the default is
+      \* unknown ("expr") when it is not a literal
+      poplists == [i \in DOMAIN fw.q |-> << [n |-> fw.q[i], t |-> "none", d |-> PopDflt(fw, fw.q[i]), o |-> plab, kind |-> "ko", org |-> "pg"] >>]
       \* 787-805  the call that receives **kwargs; each target is asked through get_signature_parameters
       call ==
         CASE fw.k = "ignore" -> Res(<< >>, ms, {})
@@ -335,7 +362,11 @@ AstKwargs(PT, parent, fw, ms, plab, ctx) ==
                ELSE LET ms2 == [ms EXCEPT !.ix = MinOf(offs)]
                         num == NextInMro(PT, ms2)
                     IN IF num = 0 THEN Res(<< >>, ms2, {}) ELSE GspClass(PT, ms2.cl[num], "init", [ms2 EXCEPT !.ix = num])
-          [] fw.k = "func"   -> IF Len(fw.chain) = 0 THEN Res(<< >>, ms, {}) ELSE GspFn(fw.chain, 1, ctx.cid, [PT |-> PT, ms |-> ms])
+          [] fw.k \in {"func", "attr"} ->
+               \* "attr": 806-812 the assignment self.<attr> = kwargs (or the dict assignment found through dict_assigns,
+               \* visit_Call:582-586) -> get_parameters_attr_use_in_members:820-834 -> get_parameters_call_attr:847-859 ->
+               \* match_call_that_uses_attr:675-692: the call in the member that unpacks **self.<attr>
+               IF Len(fw.chain) = 0 THEN Res(<< >>, ms, {}) ELSE GspFn(fw.chain, 1, ctx.cid, [PT |-> PT, ms |-> ms])
           [] fw.k = "meth"   ->                                                          \* get_node_component:655-658  self.parent
                LET r == GspClass(PT, parent, "m", ms) IN
                IF PT.top # 0 /\ DefOf(PT, parent, "m") # DefOf(PT, PT.top, "m") THEN [r EXCEPT !.ev = @ \cup {"static-dispatch"}] ELSE r
@@ -343,9 +374,14 @@ AstKwargs(PT, parent, fw, ms, plab, ctx) ==
           [] fw.k = "next"   -> IF ctx.j >= Len(ctx.chain) THEN Res(<< >>, ms, {})
                                 ELSE GspFn(ctx.chain, ctx.j + 1, ctx.cid, [PT |-> PT, ms |-> ms])
           [] OTHER           -> Res(<< >>, ms, {})
-      given   == RemoveGiven(hard, call.ps)                                              \* 802
-      removed == RemovedBy(hard, call.ps)                                                \* removed_params
-      lists   == poplists \o (IF Len(given) > 0 THEN << AddNodeOrigins(given) >> ELSE << >>)   \* 803-805
+      given   == RemoveGiven(hard, fw.pos, call.ps)                                      \* 802 / 691
+      \* removed_params: 802 passes the set, match_call_that_uses_attr:691 does not
+      removed == IF fw.k = "attr" THEN {} ELSE RemovedBy(hard, fw.pos, call.ps)
+      \* 803-805 (for "attr" after group_parameters of the single match, 858, which changes nothing here).  The lists are
+      \* in the order visit_Call:578-590 records the uses: a call is recorded BEFORE its arguments are visited, so a
+      \* pop/get nested in the arguments of the forwarding call comes after it
+      fwdlist == IF Len(given) > 0 THEN << AddNodeOrigins(given) >> ELSE << >>
+      lists   == IF fw.qpos \in {"arg", "kw"} THEN fwdlist \o poplists ELSE poplists \o fwdlist
       ev      == call.ev \cup (IF removed \cap SetOf(fw.q) # {} THEN {"pop-then-hard"} ELSE {})
   IN IF Len(lists) = 0 THEN Res(<< >>, call.ms, ev)
      ELSE IF GroupRaises(lists) THEN Crashed(call.ms, ev)                                \* 816 -> 422 raises
